@@ -279,6 +279,18 @@ Proof.
   destruct (cret_eqb r (RRes (RErr EOther))); inv H. reflexivity.
 Qed.
 
+Lemma retry_done_before_hook s id o id' e' hf r s' :
+  sy_pc s = PRetryTD id o -> sstepf s (LCall (CMarkDone id' e') FBeforeHook hf r) = Some s' ->
+  sy_pc s' = PEnd (STaskDone id o true) true.
+Proof.
+  intros P H. unfold sstepf in H. cbn [sys_step] in H. rewrite P in H. cbv iota beta in H.
+  destruct (String.eqb id id' && _); [|discriminate].
+  unfold call_mark_done, faulty in H. cbn [cret_eqb] in H.
+  destruct (cret_eqb r (RRes (RErr EOther))); inv H. reflexivity.
+Qed.
+(* the fault kinds that leave the repository alone *)
+Definition no_effect (f : fault) : bool := match f with FBefore | FBeforeHook => true | _ => false end.
+
 Lemma C7_step s l s' E Rp :
   SysInv s -> td_disc s l -> sstepf s l = Some s' -> C7 s E Rp ->
   C7 s' (E ++ ends_of [l]) (Rp ++ reports_of [l]).
@@ -430,7 +442,8 @@ Proof.
       destruct f; unfold done_eff in H4; destruct H4 as [Er Ex]; rewrite Er.
       - exists (set_done t1 (sy_now s) e). auto.
       - exists t1. split; [exact L|]. split; [auto|]. rewrite Ex. discriminate.
-      - exists (set_done t1 (sy_now s) e). auto. }
+      - exists (set_done t1 (sy_now s) e). auto.
+      - exists t1. split; [exact L|]. split; [auto|]. rewrite Ex. discriminate. }
     destruct Hrepo as (t' & L' & K1 & K2).
     destruct C as [C1 C2 C3 C4 Cr C5 C6 C7'].
     assert (NR : ~ In id Rp). { intros X. apply (reported_not_live s id I (C2 _ X)). exact Lv. }
@@ -458,7 +471,7 @@ Proof.
     pose proof (inv_wf s I) as W. pose proof (wf_lookup _ _ _ W L) as Wt.
     assert (Hrepo : exists t', lookup id (hs_repo h') = Some t'
               /\ (outcome_recorded o t' = true \/ t_state t' = Dispatched)
-              /\ (f <> FBefore -> outcome_recorded o t' = true)).
+              /\ (no_effect f = false -> outcome_recorded o t' = true)).
     { assert (Eff : forall r', r' = fst (step cfg_inmem (repo_of s) (ODone false (sy_now s) id (outcome_err o))) ->
                     exists t', lookup id r' = Some t' /\ outcome_recorded o t' = true).
       { intros r' ->. destruct K as [K|K].
@@ -470,11 +483,14 @@ Proof.
           apply set_done_recorded; auto. apply err_match_self. }
       destruct f; unfold done_eff in H1; destruct H1 as [Er Ex]; rewrite Er.
       - destruct (Eff _ eq_refl) as (t' & A & B). exists t'. auto.
-      - exists t. split; [exact L|]. split; [exact K|]. intros X. contradiction X. reflexivity.
-      - destruct (Eff _ eq_refl) as (t' & A & B). exists t'. auto. }
+      - exists t. split; [exact L|]. split; [exact K|]. intros X. discriminate X.
+      - destruct (Eff _ eq_refl) as (t' & A & B). exists t'. auto.
+      - exists t. split; [exact L|]. split; [exact K|]. intros X. discriminate X. }
     destruct Hrepo as (t' & L' & K1 & K2).
-    assert (Tol : pc' = PEnd SNone false -> f <> FBefore).
-    { intros -> ->. pose proof (retry_done_before _ _ _ _ _ _ _ _ H0 Hf) as X. cbn in X. discriminate X. }
+    assert (Tol : pc' = PEnd SNone false -> no_effect f = false).
+    { intros ->. destruct f; try reflexivity.
+      - pose proof (retry_done_before _ _ _ _ _ _ _ _ H0 Hf) as X. cbn in X. discriminate X.
+      - pose proof (retry_done_before_hook _ _ _ _ _ _ _ _ H0 Hf) as X. cbn in X. discriminate X. }
     assert (NT : forall x0, x0 <> id -> no_own_markdone s (LCall (CMarkDone id e') f hf r) x0).
     { intros x0 NE o0 ? ? ? ? Zp. rewrite H0 in Zp. inv Zp. contradiction NE. reflexivity. }
     destruct C as [C1 C2 C3 C4 Cr C5 C6 C7'].
